@@ -10,11 +10,13 @@ package main
 // file-system bucket in a fresh directory; oracle = directory snapshots.
 
 import (
+	"bufio"
 	"bytes"
 	"context"
 	"encoding/json"
 	"fmt"
 	"io"
+	"net"
 	"net/http"
 	"net/http/httptest"
 	"os"
@@ -462,6 +464,52 @@ func TestVerifC12(t *testing.T) {
 			}
 			res.Class(fmt.Sprintf("sequence/len=%d/objects=%d", len(seq), len(latest)))
 		}
+	}
+	// Sender behaviours that only exist on a real connection: the handler chain is served over loopback TCP and
+	// the client, after sending what it sends, shuts down its sending side (as `nc -N` or a dying client does).
+	// A body cut short of its declared length is an invalid request (4xx, nothing stored); a complete valid
+	// report is stored and acknowledged.
+	if p.Mine(1) {
+		tsrv := zzvNewServer(base)
+		ts := httptest.NewServer(tsrv.handler)
+		send := func(req string) string {
+			c, err := net.Dial("tcp", strings.TrimPrefix(ts.URL, "http://"))
+			if err != nil {
+				return "dial: " + err.Error()
+			}
+			defer c.Close()
+			c.Write([]byte(req))
+			c.(*net.TCPConn).CloseWrite()
+			c.SetReadDeadline(time.Now().Add(20 * time.Second))
+			line, _ := bufio.NewReader(c).ReadString('\n')
+			return strings.TrimSpace(line)
+		}
+		full := string(zzvJSON(bases["one"]))
+		for i, cut := range []int{0, 1, len(full) / 2, len(full) - 1, len(full)} {
+			for rep := 0; rep < 3; rep++ {
+				before := ref.Snapshot(tsrv.root)
+				body := full[:cut]
+				st := send(fmt.Sprintf("POST /upload/x HTTP/1.1\r\nHost: telemetry.test\r\nContent-Length: %d\r\n\r\n%s", len(full), body))
+				res.Evaluations++
+				desc := fmt.Sprintf("body cut after %d of %d declared bytes, then the sending side is shut down", cut, len(full))
+				code := 0
+				fmt.Sscanf(st, "HTTP/1.1 %d", &code)
+				time.Sleep(50 * time.Millisecond) // a handler abandoned by the timeout wrapper may still be writing
+				diff := before.Diff(ref.Snapshot(tsrv.root))
+				switch {
+				case code >= 500:
+					res.Violate("transport:5xx-to-half-closed-sender", fmt.Sprintf("status line %q: %s", st, desc), map[string]any{"cut": cut})
+				case cut < len(full) && (code < 400 || len(diff) > 0):
+					res.Violate("transport:truncated-body-accepted", fmt.Sprintf("status line %q, disk changes %v: %s", st, diff, desc), map[string]any{"cut": cut})
+				case cut == len(full) && (code != 200 || len(diff) == 0):
+					res.Violate("transport:valid-report-refused", fmt.Sprintf("status line %q, disk changes %v: %s", st, diff, desc), map[string]any{"cut": cut})
+				}
+				res.Class(fmt.Sprintf("transport/cut=%d/status=%dxx", i, code/100))
+				os.RemoveAll(filepath.Join(tsrv.cfg.LocalStorage, "uploaded"))
+				os.MkdirAll(filepath.Join(tsrv.cfg.LocalStorage, "uploaded"), 0o777)
+			}
+		}
+		ts.Close()
 	}
 	res.Transitions = res.Evaluations
 	res.States = res.Evaluations
